@@ -127,6 +127,10 @@ class Ref:
                 if t.get('cds'):
                     out.append((t['pid'], t['id'], g['id'], g['name'], self.protein(t['id']),
                         'cds_start_NF' in t.get('tags', [])))
+        # proteins whose transcript is not part of the annotation (proteome and GTF need not
+        # cover the same set): [position, protein id, transcript id, gene id, name, sequence]
+        for pos, pid, tid, gid, name, seq in self.data.get('extra_proteins', []):
+            out.insert(min(pos, len(out)), (pid, tid, gid, name, seq, False))
         if not out:
             out.append(('ENSP00000999999.1', 'ENST00000999999.1', 'ENSG00000999999.1', 'ZZ',
                 'MAAAAAAAAAAAAAAAAAK', False))
